@@ -8,10 +8,9 @@
      - no hypothesis on `cfg_policy`; `SVis` operations anywhere; the structure a client is compared with
        is `struct_vis s1 cl1`, the part of `struct_of s1` visible to the record [cl1] of its slot;
      - scripts may contain `StDisconnect` and `StStop`, under the premise [sessions_ok] (decidable, on the
-       script): (1) between the end of a session of a slot (`StDisconnect slot`, or `StStop` while the
+       script): between the end of a session of a slot (`StDisconnect slot`, or `StStop` while the
        slot was connected) and the next `StConnect slot` there is a `StDisconnect slot` followed by a
-       `StCFrame slot _` (the client notices the disconnect: `client_just_disconnected` resets it);
-       (2) the server is not started again while a client of the stopped server has not been disconnected.
+       `StCFrame slot _` (the client notices the disconnect: `client_just_disconnected` resets it).
    Still required: legal scripts, no `SMap` operation, fewer than 2^31 ticking server frames.
 
    Per slot the script determines a mode (`mode_of`):
@@ -20,8 +19,10 @@
      MLeft   the session was ended by `StDisconnect`, the client has not run a frame since
      MStale  the server was stopped while the slot was live and the client has not been disconnected yet
    The C03 statement is proved for MClean / MLive; for MLeft / MStale the client may still hold the
-   structure of the session that ended (the server has forgotten it): only the client-local
-   invariants are kept, which is what the next `StCFrame` needs to reset it. *)
+   structure of the session that ended (the server has forgotten it, or, when it is started again
+   without having run a frame while stopped, still sends to a client that missed messages): only the
+   client-local invariants are kept, which is what the next `StCFrame` after the `StDisconnect` needs
+   to reset it. *)
 From RV Require Import Lib.Res Repl.ClientTicks Repl.ClientTicks_proofs Repl.World Vis.Visibility Vis.VisSpec
   Vis.Visibility_proofs Tick.RepliconTick Tick.RepliconTick_proofs Tick.ConfirmHistory Tick.MutateTicks
   Repl.Server Repl.ServerSpec Repl.Server_proofs Repl.StructSpec Repl.Struct_proofs
@@ -58,13 +59,10 @@ Definition mode_of (script : list step) (slot : N) : smode := fold_left (mode_st
 Definition connect_slots (script : list step) : list N :=
   flat_map (fun st => match st with StConnect sl _ => [sl] | _ => [] end) script.
 
-Definition is_stale (m : smode) : bool := match m with MStale => true | _ => false end.
-
 (* what [sessions_ok] asks of a step, given the script before it *)
 Definition sess_step_ok (pre : list step) (st : step) : bool :=
   match st with
   | StConnect sl _ => match mode_of pre sl with MClean | MLive => true | _ => false end
-  | StStart => forallb (fun sl => negb (is_stale (mode_of pre sl))) (connect_slots pre)
   | _ => true
   end.
 
@@ -112,13 +110,6 @@ Proof.
   - left. apply IH. destruct (sl =? slot); [|exact H]. destruct (mode_of t slot); try discriminate; exact H.
 Qed.
 
-Lemma start_no_stale script slot : sess_step_ok script StStart = true -> mode_of script slot <> MStale.
-Proof.
-  intros H E. cbn [sess_step_ok] in H. rewrite forallb_forall in H.
-  assert (Hin : In slot (connect_slots script)) by (apply mode_not_clean; rewrite E; discriminate).
-  specialize (H slot Hin). rewrite E in H. discriminate.
-Qed.
-
 (* single-session scripts (no StStop, no StDisconnect) satisfy the premise; every slot stays clean or live *)
 Lemma single_session_modes script : single_session script = true ->
   sessions_ok script = true /\ forall slot, mode_of script slot = MClean \/ mode_of script slot = MLive.
@@ -128,8 +119,7 @@ Proof.
   cbn [forallb] in H2. rewrite andb_true_r in H2. destruct (IH H1) as [I1 I2]. split.
   - rewrite sessions_ok_snoc, I1. cbn [andb].
     destruct st as [| |sl max|sl|sl|tick dt cleanup ops parts|sl ops|sl s2c ch w|sl s2c ch w]; try reflexivity; try discriminate.
-    + cbn [sess_step_ok]. apply forallb_forall. intros sl _. destruct (I2 sl) as [-> | ->]; reflexivity.
-    + cbn [sess_step_ok]. destruct (I2 sl) as [-> | ->]; reflexivity.
+    cbn [sess_step_ok]. destruct (I2 sl) as [-> | ->]; reflexivity.
   - intros slot. rewrite mode_of_snoc.
     destruct st as [| |sl max|sl|sl|tick dt cleanup ops parts|sl ops|sl s2c ch w|sl s2c ch w]; try discriminate; cbn [mode_step];
       try exact (I2 slot).
@@ -280,10 +270,18 @@ Section SESS.
        exists applied, cside c applied (cl_inbox_upd c ++ lupd) lmut /\
                        slink script s gs slot (applied ++ cl_inbox_upd c ++ lupd) (lmut ++ cl_inbox_mut c ++ cl_buffered c)).
 
+  (* a connected client whose server was stopped: what it has applied and what it may still receive (the
+     server may be started again without a reset) is not a prefix of what the server believes it was sent;
+     only what a client frame needs to keep the client invariants is recorded *)
+  Definition stale_conn (c : client) (lupd : list update_msg) (lmut : list mutate_msg) : Prop :=
+    forallb no_maps (cl_inbox_upd c ++ lupd) = true /\
+    (forall u, In u (cl_inbox_upd c ++ lupd) -> small_tick (u_tick u)) /\
+    (forall m, In m (lmut ++ cl_inbox_mut c ++ cl_buffered c) -> small_tick (m_tick m)) /\
+    (cl_last_not_disconnected c = false -> srel c [] /\ cl_buffered c = []).
+
   Definition inv_stale (s : server) (slot : N) (lupd : list update_msg) (lmut : list mutate_msg) (c : client) : Prop :=
-    lupd = [] /\ lmut = [] /\
-    (cl_status c = Disconnected -> clean c /\ ~ has_rec s slot) /\
-    (cl_status c = Connected -> exists applied rest, cside c applied (cl_inbox_upd c ++ rest) []).
+    (cl_status c = Disconnected -> clean c /\ ~ has_rec s slot /\ lupd = [] /\ lmut = []) /\
+    (cl_status c = Connected -> stale_conn c lupd lmut).
 
   Definition mode_inv (script : list step) (m : smode) (s : server) (gs : list (N * structure)) (slot : N)
              (lupd : list update_msg) (lmut : list mutate_msg) (c : client) : Prop :=
@@ -307,7 +305,6 @@ Section SESS.
     fi_ginv : ginv_v (mkG (y_server y) gs);
     fi_nomaps : nomaps_srv (y_server y);
     fi_tick : sv_tick (y_server y) <= tick_frames script;
-    fi_stale : forall slot, mode_of script slot = MStale -> sv_running (y_server y) = false;
     fi_slots : forall slot c, al_get slot (y_clients y) = Some c ->
                slot_inv script (mode_of script slot) (y_server y) gs slot
                         (l_upd (get_link y slot)) (l_mut (get_link y slot)) c
@@ -371,8 +368,8 @@ Section SESS.
       intros Hc. destruct (C Hc) as [R [applied [C1 C2]]]. split; [auto|]. exists applied. split; [exact C1|].
       apply (slink_mono script st s s' gs gs'); auto.
     - destruct H as (A & B & C & D). split; [exact A|]. split; [exact B|]. split; [rewrite Hr; exact C|exact D].
-    - destruct H as (A & B & C & D). split; [exact A|]. split; [exact B|]. split; [|exact D].
-      intros Hc. destruct (C Hc) as [C1 C2]. split; [exact C1|rewrite Hr; exact C2].
+    - destruct H as (C & D). split; [|exact D].
+      intros Hc. destruct (C Hc) as (C1 & C2 & C3). split; [exact C1|]. split; [rewrite Hr; exact C2|exact C3].
   Qed.
 
   Lemma slot_inv_mono script st m s s' gs gs' slot lupd lmut c :
@@ -415,12 +412,11 @@ Section SESS.
     sv_running (y_server y') = sv_running (y_server y) ->
     ginv_v (mkG (y_server y') gs) -> f_inv (script ++ [st]) y' gs.
   Proof.
-    intros [H1 H2 H3 H4 H5 H6] Hnt Hmode Hends E1 E2 E3 E3m E4 Et Ed Er Hg. constructor.
+    intros [H1 H2 H3 H4 H6] Hnt Hmode Hends E1 E2 E3 E3m E4 Et Ed Er Hg. constructor.
     - congruence.
     - exact Hg.
     - revert H3. apply nomaps_same. exact E4.
     - rewrite tick_frames_snoc, Hnt, Et. exact H4.
-    - intros slot Hm. rewrite mode_of_snoc, Hmode in Hm. rewrite Er. exact (H5 slot Hm).
     - intros slot c Hc. rewrite E2 in Hc. rewrite E3, E3m, mode_of_snoc, Hmode.
       apply (slot_inv_mono script st _ (y_server y) _ gs gs); try assumption; try reflexivity.
       + apply Hends.
@@ -452,18 +448,15 @@ Section SESS.
 
   (* ---------- StStart ---------- *)
 
-  Lemma f_start script y gs : f_inv script y gs -> sess_step_ok script StStart = true ->
+  Lemma f_start script y gs : f_inv script y gs ->
     f_inv (script ++ [StStart]) (set_server y (set_running (y_server y) true)) gs.
   Proof.
-    intros H Hs.
-    assert (G : f_inv (script ++ [StStart]) (set_server y (set_running (y_server y) true)) gs ->
-                f_inv (script ++ [StStart]) (set_server y (set_running (y_server y) true)) gs) by auto.
-    destruct H as [H1 H2 H3 H4 H5 H6]. constructor.
+    intros H.
+    destruct H as [H1 H2 H3 H4 H6]. constructor.
     - exact H1.
     - exact (gstep_inv_v cfg0 (mkG (y_server y) gs) GStart _ H2 eq_refl).
     - revert H3. apply nomaps_same. reflexivity.
     - rewrite tick_frames_snoc. exact H4.
-    - intros slot Hm. rewrite mode_of_snoc in Hm. cbn [mode_step] in Hm. exfalso. exact (start_no_stale script slot Hs Hm).
     - intros slot c Hc. rewrite mode_of_snoc. cbn [mode_step].
       apply (slot_inv_mono script StStart _ (y_server y) _ gs gs); try reflexivity; try tauto.
       + intros _. apply same_records. reflexivity.
@@ -472,16 +465,27 @@ Section SESS.
 
   (* ---------- StStop ---------- *)
 
-  Lemma cside_weaken c applied pend lmut lmut' :
-    (forall m, In m lmut' -> In m lmut) -> cside c applied pend lmut -> cside c applied pend lmut'.
+  (* when the server stops, the links are emptied *)
+  Lemma cside_stale c applied lupd lmut : cside c applied (cl_inbox_upd c ++ lupd) lmut -> stale_conn c [] [].
   Proof.
-    intros Hi [C1 C2 C3 C4 C5 C6 C7 C8]. constructor; try assumption.
-    intros m Hm. apply C7. apply in_app_or in Hm. apply in_or_app. destruct Hm as [Hm|Hm]; [left; exact (Hi m Hm)|right; exact Hm].
+    intros [C1 C2 C3 C4 C5 C6 C7 C8]. rewrite forallb_app in C2. apply andb_prop in C2. destruct C2 as [C2 _].
+    split; [rewrite app_nil_r; exact C2|]. split; [|split].
+    - intros u Hu. rewrite app_nil_r in Hu. apply C4. apply in_or_app. right. apply in_or_app. left. exact Hu.
+    - intros m Hm. cbn [app] in Hm. apply (C7 m). apply in_or_app. right. exact Hm.
+    - intros Hl. destruct (C8 Hl) as [-> B]. split; [exact C1|exact B].
+  Qed.
+
+  Lemma stale_conn_weaken c lupd lmut : stale_conn c lupd lmut -> stale_conn c [] [].
+  Proof.
+    intros (A & B & C & D). rewrite forallb_app in A. apply andb_prop in A. destruct A as [A _].
+    split; [rewrite app_nil_r; exact A|]. split; [|split; [|exact D]].
+    - intros u Hu. rewrite app_nil_r in Hu. apply B. apply in_or_app. left. exact Hu.
+    - intros m Hm. cbn [app] in Hm. apply C. apply in_or_app. right. exact Hm.
   Qed.
 
   Lemma f_stop script y gs y' o : f_inv script y gs -> sys_step y StStop = Ok (y', o) -> f_inv (script ++ [StStop]) y' gs.
   Proof.
-    intros [H1 H2 H3 H4 H5 H6] H. cbn [sys_step] in H. inversion H; subst o. clear H.
+    intros [H1 H2 H3 H4 H6] H. cbn [sys_step] in H. inversion H; subst o. clear H.
     match goal with H : ?t = y' |- _ => set (y2 := t) in *; assert (Ecfg : y_cfg y2 = y_cfg y) by reflexivity;
       assert (S1 : y_server y2 = set_running (y_server y) false) by reflexivity;
       assert (S3 : y_clients y2 = y_clients y) by reflexivity;
@@ -493,19 +497,18 @@ Section SESS.
     - rewrite S1. exact (gstep_inv_v cfg0 (mkG (y_server y) gs) GStop _ H2 eq_refl).
     - rewrite S1. revert H3. apply nomaps_same. reflexivity.
     - rewrite S1, tick_frames_snoc. exact H4.
-    - intros _ _. rewrite S1. reflexivity.
     - intros slot c Hc. rewrite S3 in Hc. rewrite S4, S1. cbn [link_empty l_upd l_mut]. rewrite mode_of_snoc.
       destruct (H6 slot c Hc) as [I1 I2 I3 I4]. constructor; [exact I1|exact I2|exact I3|].
       assert (Hrec : has_rec (set_running (y_server y) false) slot <-> has_rec (y_server y) slot) by (split; apply has_rec_clients; reflexivity).
       destruct (mode_of script slot); cbn [mode_step mode_inv] in *.
       + destruct I4 as (A & B & C & _). split; [exact A|]. split; [exact B|]. rewrite Hrec. auto.
-      + destruct I4 as (A & B & C). split; [reflexivity|]. split; [reflexivity|]. split.
-        * intros Hd. split; [exact (proj1 (B Hd))|]. rewrite Hrec, A. congruence.
-        * intros Hcn. destruct (C Hcn) as [_ [applied [C1 _]]]. exists applied, (l_upd (get_link y slot)).
-          apply (cside_weaken c applied _ (l_mut (get_link y slot))); [intros m []|exact C1].
+      + destruct I4 as (A & B & C). split.
+        * intros Hd. split; [exact (proj1 (B Hd))|]. split; [rewrite Hrec, A; congruence|auto].
+        * intros Hcn. destruct (C Hcn) as [_ [applied [C1 _]]]. exact (cside_stale c applied _ _ C1).
       + destruct I4 as (A & B & C & _). split; [exact A|]. split; [exact B|]. rewrite Hrec. auto.
-      + destruct I4 as (_ & _ & C & D). split; [reflexivity|]. split; [reflexivity|]. split; [|exact D].
-        intros Hd. destruct (C Hd) as [C1 C2]. split; [exact C1|rewrite Hrec; exact C2].
+      + destruct I4 as (C & D). split.
+        * intros Hd. destruct (C Hd) as (C1 & C2 & _). split; [exact C1|]. split; [rewrite Hrec; exact C2|auto].
+        * intros Hcn. exact (stale_conn_weaken c _ _ (D Hcn)).
   Qed.
 
   (* ---------- StConnect ---------- *)
@@ -549,12 +552,9 @@ Section SESS.
     sys_step y (StConnect slot0 max) = Ok (y', o) ->
     f_inv (script ++ [StConnect slot0 max]) y' (ghost_step_s y gs (StConnect slot0 max)).
   Proof.
-    intros Hinv Hs H. pose proof Hinv as [Hcfg Hg Hnm Htk Hst Hslots].
-    assert (Hstale' : forall slot, mode_of (script ++ [StConnect slot0 max]) slot = MStale -> mode_of script slot = MStale).
-    { intros slot Hm. destruct (mode_connect script slot0 max slot Hs) as [E _]. rewrite E in Hm.
-      destruct (slot0 =? slot); [discriminate|exact Hm]. }
+    intros Hinv Hs H. pose proof Hinv as [Hcfg Hg Hnm Htk Hslots].
     assert (Hnoop : f_inv (script ++ [StConnect slot0 max]) y gs).
-    { constructor; [exact Hcfg|exact Hg|exact Hnm|rewrite tick_frames_snoc; exact Htk|intros slot Hm; exact (Hst slot (Hstale' slot Hm))|].
+    { constructor; [exact Hcfg|exact Hg|exact Hnm|rewrite tick_frames_snoc; exact Htk|].
       intros slot c Hc. destruct (mode_connect script slot0 max slot Hs) as [E Hm0]. rewrite E.
       pose proof (slot_inv_mono script (StConnect slot0 max) _ (y_server y) (y_server y) gs gs slot _ _ c eq_refl
                     (conj (fun x => x) (fun x => x)) eq_refl eq_refl eq_refl (fun x => x) (fun x => x)
@@ -586,7 +586,6 @@ Section SESS.
     - intros c1 Hin. cbn [set_client set_server y_server] in Hin. fold s' in Hin. rewrite F1 in Hin. apply in_app_or in Hin.
       destruct Hin as [Hin|[<-|[]]]; [exact (Hnm c1 Hin)|exact F3].
     - cbn [set_client set_server y_server]. fold s'. rewrite tick_frames_snoc. cbn [is_tick_frame]. rewrite T1. exact Htk.
-    - intros slot Hm. exfalso. pose proof (Hst slot (Hstale' slot Hm)) as G. fold s in G. congruence.
     - intros slot c Hc. cbn [set_client set_server y_clients y_server] in *.
       change (get_link (set_client (set_server y s') slot0 (set_status cl Connected)) slot) with (get_link y slot).
       destruct (mode_connect script slot0 max slot Hs) as [E Hm0]. rewrite E.
@@ -631,7 +630,7 @@ Section SESS.
     f_inv (script ++ [StAuthorize slot0]) (set_server y (authorize_client (y_cfg y) (y_server y) slot0))
           (ghost_step_s y gs (StAuthorize slot0)).
   Proof.
-    intros [Hcfg Hg Hnm Htk Hst Hslots]. cbn [ghost_step_s ghost_step]. rewrite Hcfg. set (s := y_server y) in *.
+    intros [Hcfg Hg Hnm Htk Hslots]. cbn [ghost_step_s ghost_step]. rewrite Hcfg. set (s := y_server y) in *.
     set (s' := authorize_client cfg0 s slot0).
     destruct (authorize_clients cfg0 s slot0) as (A1 & A2 & A3 & A4 & A5). fold s' in A1, A2, A3, A4, A5.
     pose proof (authorize_inv_v cfg0 (mkG s gs) slot0 Hg) as Hg'. cbn [g_srv g_sent] in Hg'. fold s' in Hg'.
@@ -658,7 +657,6 @@ Section SESS.
     - exact Hg'.
     - apply A3. exact Hnm.
     - cbn [set_server y_server]. fold s'. rewrite tick_frames_snoc. cbn [is_tick_frame]. rewrite T1. exact Htk.
-    - intros slot Hm. rewrite mode_of_snoc in Hm. cbn [mode_step] in Hm. cbn [set_server y_server]. fold s'. rewrite A4. exact (Hst slot Hm).
     - intros slot c Hc. cbn [set_server y_clients y_server] in *.
       change (get_link (set_server y s') slot) with (get_link y slot). rewrite mode_of_snoc. cbn [mode_step].
       refine (slot_inv_mono script (StAuthorize slot0) _ s s' gs _ slot _ _ c eq_refl (conj (A1 slot) (Hrec' slot)) (Hsent slot) T1 T2 _ (A2 slot) _ (Hslots slot c Hc)).
@@ -691,22 +689,20 @@ Section SESS.
       + apply Hdisc; [exact Es|apply clean_left; exact (proj1 (B Es))].
       + destruct (C Es) as [_ [applied [C1 _]]]. apply Hconn; [exact Es|eauto].
     - destruct H as (A & B & _). apply Hdisc; assumption.
-    - destruct H as (_ & _ & C & D). destruct (status_dec cl) as [Es|Es].
+    - destruct H as (C & D). destruct (status_dec cl) as [Es|Es].
       + apply Hdisc; [exact Es|apply clean_left; exact (proj1 (C Es))].
-      + destruct (D Es) as [applied [rest C1]]. apply Hconn; [exact Es|eauto].
+      + destruct (D Es) as (_ & _ & _ & D4). destruct (F2 Es) as [I1 I2]. split; [exact I1|]. split; [exact I2|].
+        rewrite F3. intros Hl. destruct (D4 Hl) as [R B]. split; [revert R; apply srel_ext; reflexivity|exact B].
   Qed.
 
   Lemma f_disconnect script y gs slot0 y' o :
     f_inv script y gs -> sys_step y (StDisconnect slot0) = Ok (y', o) ->
     f_inv (script ++ [StDisconnect slot0]) y' (ghost_step_s y gs (StDisconnect slot0)).
   Proof.
-    intros Hinv H. pose proof Hinv as [Hcfg Hg Hnm Htk Hst Hslots].
-    assert (Hstale' : forall slot, mode_of (script ++ [StDisconnect slot0]) slot = MStale -> mode_of script slot = MStale).
-    { intros slot Hm. rewrite mode_disconnect in Hm. destruct (slot0 =? slot); [|exact Hm]. destruct (mode_of script slot); discriminate. }
+    intros Hinv H. pose proof Hinv as [Hcfg Hg Hnm Htk Hslots].
     cbn [sys_step ghost_step_s] in *.
     destruct (al_get slot0 (y_clients y)) as [cl|] eqn:Ec.
-    2:{ inversion H; subst y' o. constructor; [exact Hcfg|exact Hg|exact Hnm|rewrite tick_frames_snoc; exact Htk|
-          intros slot Hm; exact (Hst slot (Hstale' slot Hm))|].
+    2:{ inversion H; subst y' o. constructor; [exact Hcfg|exact Hg|exact Hnm|rewrite tick_frames_snoc; exact Htk|].
         intros slot c Hc. rewrite mode_disconnect. destruct (slot0 =? slot) eqn:E0; [assert (slot0 = slot) by lia; congruence|].
         refine (slot_inv_mono script _ _ (y_server y) (y_server y) gs gs slot _ _ c _
                     (conj (fun x => x) (fun x => x)) eq_refl eq_refl eq_refl (fun x => x) (fun x => x)
@@ -728,7 +724,6 @@ Section SESS.
     - exact Hg'.
     - intros c1 Hin. cbn in Hin. fold s in Hin. apply filter_In in Hin. exact (Hnm c1 (proj1 Hin)).
     - change (sv_tick s' <= tick_frames (script ++ [StDisconnect slot0])). rewrite tick_frames_snoc, D6. cbn [is_tick_frame]. exact Htk.
-    - intros slot Hm. change (sv_running s' = false). rewrite D9. exact (Hst slot (Hstale' slot Hm)).
     - intros slot c Hc. unfold clear_link in *. cbn [set_link set_client set_server y_clients y_server] in *. fold s'.
       change (get_link (set_link (set_client (set_server y s') slot0 (set_status cl Disconnected)) slot0 link_empty) slot)
         with (get_link (set_link y slot0 link_empty) slot).
@@ -768,7 +763,7 @@ Section SESS.
     sys_step y (StSFrame tick dt cleanup ops parts) = Ok (y', o) ->
     f_inv (script ++ [StSFrame tick dt cleanup ops parts]) y' (ghost_step_s y gs (StSFrame tick dt cleanup ops parts)).
   Proof.
-    intros [Hcfg Hg Hnm Htk Hst Hslots] Hrun0 Hops Hbound H.
+    intros [Hcfg Hg Hnm Htk Hslots] Hrun0 Hops Hbound H.
     assert (Hreach : forall slot, reached_s (script ++ [StSFrame tick dt cleanup ops parts]) slot y').
     { intros slot. apply reached_s_last. rewrite run_app, Hrun0. cbn [bind run]. rewrite H. reflexivity. }
     cbn [sys_step ghost_step_s ghost_step] in *. rewrite Hcfg in *. set (s := y_server y) in *.
@@ -789,8 +784,6 @@ Section SESS.
     - rewrite Q2. exact Hg'.
     - rewrite Q2. exact N1.
     - rewrite Q2. exact Htk'.
-    - intros slot Hm. rewrite mode_of_snoc in Hm. cbn [mode_step] in Hm. rewrite Q2. cbn [set_server y_server]. rewrite N2.
-      exact (Hst slot Hm).
     - intros slot c Hc. rewrite Q3 in Hc. cbn [set_server y_clients] in Hc. rewrite Q2. cbn [set_server y_server].
       rewrite enqueue_lupd, enqueue_lmut. change (get_link (set_server y s') slot) with (get_link y slot).
       rewrite mode_of_snoc. cbn [mode_step].
@@ -805,8 +798,8 @@ Section SESS.
             split; [|split; [exact B|intros Hc'; congruence]].
             split; [intros Hr; apply A; exact (N3 slot Hr)|intros Hc'; congruence].
           - destruct O4 as (A & B & C & D). split; [exact A|]. split; [exact B|]. split; [intros Hr; exact (C (N3 slot Hr))|exact D].
-          - destruct O4 as (A & B & C & D). split; [exact A|]. split; [exact B|]. split; [|exact D].
-            intros Hd. destruct (C Hd) as [C1 C2]. split; [exact C1|intros Hr; exact (C2 (N3 slot Hr))]. }
+          - destruct O4 as (C & D). split; [|exact D].
+            intros Hd. destruct (C Hd) as (C1 & C2 & C3). split; [exact C1|]. split; [intros Hr; exact (C2 (N3 slot Hr))|exact C3]. }
       (* the server is running *)
       specialize (N4 eq_refl). specialize (K3 eq_refl).
       assert (Hrec : has_rec s' slot <-> has_rec s slot) by (rewrite !has_rec_sig, N4; reflexivity).
@@ -936,7 +929,27 @@ Section SESS.
              ++ intros cl' Hin Hsl Ha Hne. pose proof (M2 cl' Hin Ha Er) as G. rewrite Hsl, Eu in G. apply G. exact (Hltsome Hne).
       + destruct O4 as (A & B & C & D). apply (Hidle C (fun lu lm => inv_left s' slot lu lm c)).
         split; [exact A|]. split; [exact B|]. split; [rewrite Hrec; exact C|exact D].
-      + exfalso. pose proof (Hst slot Em) as G. fold s in G. congruence.
+      + (* the server was stopped and started again without a reset: it still sends to the slot *)
+        destruct O4 as (C & D). split.
+        * intros Hd. destruct (C Hd) as (C1 & C2 & C3).
+          apply (Hidle C2 (fun lu lm => clean c /\ ~ has_rec s' slot /\ lu = [] /\ lm = [])). rewrite Hrec. auto.
+        * intros Hcn. destruct (D Hcn) as (D1 & D2 & D3 & D4).
+          assert (Hsm' : sv_tick s' < 2 ^ 31).
+          { rewrite tick_frames_snoc in Htk'. cbn [is_tick_frame] in Htk'. destruct tick; lia. }
+          assert (Hut : upd_ticks_ok (fun _ : N => None) s) by (intros cl Hin Ha t Hl; discriminate).
+          destruct (server_frame_muts_v cfg0 (mkG s gs) tick dt cleanup ops parts s' fo _ Hg Hut Hops Ef) as [M1 _].
+          fold outs in M1.
+          assert (Hups : forall u, In u (match upd_for slot outs with Some u => [u] | None => [] end) ->
+                    no_maps u = true /\ small_tick (u_tick u)).
+          { intros u Hu. destruct (upd_for slot outs) as [u1|] eqn:Eu; [|destruct Hu]. destruct Hu as [<-|[]].
+            destruct (upd_for_in slot outs u1 Eu) as (o1 & Ho1 & _ & Huo). destruct (N7 o1 u1 Ho1 Huo) as [Hmp Ht].
+            split; [unfold no_maps; rewrite Hmp; reflexivity|unfold small_tick; rewrite Ht; exact Hsm']. }
+          split; [|split; [|split; [|exact D4]]].
+          -- rewrite app_assoc, forallb_app, D1. cbn [andb]. apply forallb_forall. intros u Hu. exact (proj1 (Hups u Hu)).
+          -- intros u Hu. rewrite app_assoc in Hu. apply in_app_or in Hu. destruct Hu as [Hu|Hu]; [exact (D2 u Hu)|exact (proj2 (Hups u Hu))].
+          -- intros m Hm. apply in_app3 in Hm. destruct Hm as [Hm|Hm]; [exact (D3 m Hm)|].
+             destruct (mutates_for_in slot outs m Hm) as (o1 & Ho1 & _ & Hmo). destruct (M1 o1 m Ho1 Hmo) as (G1 & _).
+             unfold small_tick. rewrite G1. exact Hsm'.
   Qed.
 
   (* ---------- StCFrame ---------- *)
@@ -1001,9 +1014,7 @@ Section SESS.
     f_inv script y gs -> sys_step y (StCFrame slot0 ops) = Ok (y', o) ->
     f_inv (script ++ [StCFrame slot0 ops]) y' gs.
   Proof.
-    intros Hinv H. pose proof Hinv as [Hcfg Hg Hnm Htk Hst Hslots].
-    assert (Hstale' : forall slot, mode_of (script ++ [StCFrame slot0 ops]) slot = MStale -> mode_of script slot = MStale).
-    { intros slot Hm. rewrite mode_cframe in Hm. destruct (slot0 =? slot); [|exact Hm]. destruct (mode_of script slot); try discriminate; reflexivity. }
+    intros Hinv H. pose proof Hinv as [Hcfg Hg Hnm Htk Hslots].
     assert (Hother : forall (s' : server) slot c, slot <> slot0 -> sv_clients s' = sv_clients (y_server y) ->
               sv_tick s' = sv_tick (y_server y) -> sv_dirty s' = sv_dirty (y_server y) -> sv_running s' = sv_running (y_server y) ->
               al_get slot (y_clients y) = Some c ->
@@ -1017,7 +1028,7 @@ Section SESS.
       - intros _. apply same_records. exact Ecl. }
     destruct (al_get slot0 (y_clients y)) as [cl|] eqn:Ec.
     2:{ cbn [sys_step] in H. rewrite Ec in H. inversion H; subst y' o.
-        constructor; [exact Hcfg|exact Hg|exact Hnm|rewrite tick_frames_snoc; exact Htk|intros slot Hm; exact (Hst slot (Hstale' slot Hm))|].
+        constructor; [exact Hcfg|exact Hg|exact Hnm|rewrite tick_frames_snoc; exact Htk|].
         intros slot c Hc. apply Hother; try reflexivity; [intros ->; congruence|exact Hc]. }
     destruct (client_frame cl ops) as [[cl' cfo]| |] eqn:Ef;
       [|cbn [sys_step] in H; rewrite Ec, Ef in H; discriminate|cbn [sys_step] in H; rewrite Ec, Ef in H; discriminate].
@@ -1032,7 +1043,6 @@ Section SESS.
     - rewrite F4. exact (gstep_inv_v cfg0 (mkG s gs) (GPublish slot0 pcs) _ Hg eq_refl).
     - rewrite F4. revert Hnm. apply nomaps_same. reflexivity.
     - rewrite F4, tick_frames_snoc. exact Htk.
-    - intros slot Hm. rewrite F4. exact (Hst slot (Hstale' slot Hm)).
     - intros slot c Hc. rewrite F2 in Hc. rewrite F3, F3m. destruct (N.eq_dec slot slot0) as [->|Hne].
       2:{ rewrite al_get_insert_other in Hc by exact Hne. apply Hother; try (rewrite F4; reflexivity); assumption. }
       rewrite al_get_insert_same in Hc. inversion Hc; subst c. clear Hc. rewrite mode_cframe, N.eqb_refl.
@@ -1062,14 +1072,22 @@ Section SESS.
           -- exact L.
       + destruct O4 as (A & B & C & D). destruct (Hdisc A B) as (I & P & S & St & Cl).
         constructor; [exact I|exact P|exact S|]. cbn [mode_inv]. split; [exact St|]. split; [exact Cl|]. rewrite Hrec. auto.
-      + destruct O4 as (A & B & C & D). destruct (status_dec cl) as [Es|Es].
-        * destruct (C Es) as (C1 & C2). destruct (Hdisc Es (clean_left _ C1)) as (I & P & S & St & Cl).
-          constructor; [exact I|exact P|exact S|]. cbn [mode_inv]. split; [exact A|]. split; [exact B|].
-          split; [intros _; rewrite Hrec; auto|intros Hc'; congruence].
-        * destruct (D Es) as [applied [rest C1]].
-          destruct (cframe_conn cl applied rest [] ops cl' cfo O1 O2 O3 Es C1 Ef) as (I & P & S & St & Ei & Emu & Kb & C1').
-          constructor; [exact I|exact P|exact S|]. cbn [mode_inv]. split; [exact A|]. split; [exact B|].
-          split; [intros Hd; congruence|]. intros _. exists (applied ++ cl_inbox_upd cl), rest. exact C1'.
+      + destruct O4 as (C & D). destruct (status_dec cl) as [Es|Es].
+        * destruct (C Es) as (C1 & C2 & C3). destruct (Hdisc Es (clean_left _ C1)) as (I & P & S & St & Cl).
+          constructor; [exact I|exact P|exact S|]. cbn [mode_inv].
+          split; [intros _; split; [exact Cl|]; split; [rewrite Hrec; exact C2|exact C3]|intros Hc'; congruence].
+        * destruct (D Es) as (D1 & D2 & D3 & D4).
+          pose proof D1 as D1'. rewrite forallb_app in D1'. apply andb_prop in D1'. destruct D1' as [D1a D1b].
+          destruct (cframe_weak cl ops cl' cfo O1 O2 O3 Es D1a
+                      (fun u Hu => D2 u (in_or_app _ _ _ (or_introl Hu)))
+                      (fun m Hm => D3 m (in_or_app _ _ _ (or_intror Hm))) Ef) as (I & P & S & St & Ei & Emu & Kb).
+          pose proof (frame_lnd cl ops cl' cfo Ef) as Hl. rewrite St in Hl.
+          constructor; [exact I|exact P|exact S|]. cbn [mode_inv]. split; [intros Hd; congruence|]. intros _.
+          rewrite <- F3, <- F3m. unfold stale_conn. rewrite Ei, Emu, F3, F3m. cbn [app].
+          split; [exact D1b|]. split; [intros u Hu; apply D2; apply in_or_app; right; exact Hu|].
+          split; [|intros Hf; congruence].
+          intros m Hm. apply D3. apply in_app_or in Hm. apply in_or_app.
+          destruct Hm as [Hm|Hm]; [left; exact Hm|right; exact (Kb m Hm)].
   Qed.
 
   (* ---------- StDeliver / StDrop ---------- *)
@@ -1084,23 +1102,24 @@ Section SESS.
     cbv zeta in *. split; [exact A|]. split; congruence.
   Qed.
 
-  (* only a live connection has something queued *)
+  (* only a connected client has something queued *)
   Lemma queued_live script m s gs slot lupd lmut c :
-    mode_inv script m s gs slot lupd lmut c -> lupd <> [] \/ lmut <> [] -> m = MLive /\ cl_status c = Connected.
+    mode_inv script m s gs slot lupd lmut c -> lupd <> [] \/ lmut <> [] -> (m = MLive \/ m = MStale) /\ cl_status c = Connected.
   Proof.
     intros H Hne. destruct m; cbn [mode_inv] in H.
     - destruct H as (_ & _ & _ & -> & ->). destruct Hne; congruence.
-    - split; [reflexivity|]. destruct H as (_ & B & _). destruct (status_dec c) as [Es|Es]; [|exact Es].
+    - split; [left; reflexivity|]. destruct H as (_ & B & _). destruct (status_dec c) as [Es|Es]; [|exact Es].
       destruct (B Es) as (_ & -> & ->). destruct Hne; congruence.
     - destruct H as (_ & _ & _ & -> & ->). destruct Hne; congruence.
-    - destruct H as (-> & -> & _). destruct Hne; congruence.
+    - split; [right; reflexivity|]. destruct H as (C & _). destruct (status_dec c) as [Es|Es]; [|exact Es].
+      destruct (C Es) as (_ & _ & -> & ->). destruct Hne; congruence.
   Qed.
 
   (* a step that only moves messages between the queues of a live slot and the inboxes of its client *)
   Lemma f_link_live script st y gs slot0 cl cl' lu lm la :
     f_inv script y gs -> is_tick_frame st = false ->
     (forall slot m, mode_step slot m st = m) -> (forall slot, ends_session slot st = false) ->
-    al_get slot0 (y_clients y) = Some cl -> mode_of script slot0 = MLive -> cl_status cl = Connected ->
+    al_get slot0 (y_clients y) = Some cl -> mode_of script slot0 = MLive \/ mode_of script slot0 = MStale -> cl_status cl = Connected ->
     cl_s2c cl' = cl_s2c cl -> cl_c2s cl' = cl_c2s cl -> cl_ents cl' = cl_ents cl -> cl_next cl' = cl_next cl ->
     cl_upd_tick cl' = cl_upd_tick cl -> cl_status cl' = cl_status cl -> cl_buffered cl' = cl_buffered cl ->
     cl_last_not_disconnected cl' = cl_last_not_disconnected cl ->
@@ -1108,9 +1127,8 @@ Section SESS.
     (forall m, In m (lm ++ cl_inbox_mut cl') -> In m (l_mut (get_link y slot0) ++ cl_inbox_mut cl)) ->
     f_inv (script ++ [st]) (set_client (set_link y slot0 (mkLink lu lm la)) slot0 cl') gs.
   Proof.
-    intros [Hcfg Hg Hnm Htk Hst Hslots] Hnt Hmode Hends Ec Em Es E1 E2 E3 E4 E5 E6 E7 E8 Hupd Hmut.
-    constructor; [exact Hcfg|exact Hg|exact Hnm|rewrite tick_frames_snoc, Hnt; exact Htk| |].
-    { intros slot Hm. rewrite mode_of_snoc, Hmode in Hm. exact (Hst slot Hm). }
+    intros [Hcfg Hg Hnm Htk Hslots] Hnt Hmode Hends Ec Em Es E1 E2 E3 E4 E5 E6 E7 E8 Hupd Hmut.
+    constructor; [exact Hcfg|exact Hg|exact Hnm|rewrite tick_frames_snoc, Hnt; exact Htk|].
     intros slot c Hc. cbn [set_client set_link y_clients y_server] in *.
     change (get_link (set_client (set_link y slot0 (mkLink lu lm la)) slot0 cl') slot)
       with (get_link (set_link y slot0 (mkLink lu lm la)) slot).
@@ -1120,17 +1138,23 @@ Section SESS.
         refine (slot_inv_mono script st _ (y_server y) _ gs gs slot _ _ c (Hends slot) _ eq_refl eq_refl eq_refl _ _ _ (Hslots slot c Hc));
           [tauto|auto|auto|]. intros _. apply same_records. reflexivity. }
     rewrite al_get_insert_same in Hc. inversion Hc; subst c. clear Hc. rewrite get_link_set_link_same. cbn [l_upd l_mut].
-    destruct (Hslots slot0 cl Ec) as [O1 O2 O3 O4]. rewrite Em in *. cbn [mode_inv] in *. destruct O4 as (A & B & C).
+    destruct (Hslots slot0 cl Ec) as [O1 O2 O3 O4].
+    assert (Hsub : forall m, In m (lm ++ cl_inbox_mut cl' ++ cl_buffered cl') ->
+              In m (l_mut (get_link y slot0) ++ cl_inbox_mut cl ++ cl_buffered cl)).
+    { intros m Hm. rewrite E7 in Hm. rewrite app_assoc in Hm. apply in_app_or in Hm. rewrite app_assoc. apply in_or_app.
+      destruct Hm as [Hm|Hm]; [left; exact (Hmut m Hm)|right; exact Hm]. }
     constructor.
     - revert O1. apply cs_inv_ext; assumption.
     - revert O2. apply pu_ext; assumption.
     - revert O3. apply hist_small_ext. exact E3.
-    - split; [rewrite E6; exact A|]. split; [rewrite E6; intros Hd; congruence|]. intros _.
+    - destruct Em as [Em|Em]; rewrite Em in *; cbn [mode_inv] in *.
+      2:{ destruct O4 as (_ & D). split; [rewrite E6; intros Hd; congruence|]. intros _.
+          destruct (D Es) as (D1 & D2 & D3 & D4). unfold stale_conn. rewrite Hupd.
+          split; [exact D1|]. split; [exact D2|]. split; [intros m Hm; exact (D3 m (Hsub m Hm))|].
+          rewrite E8, E7. intros Hl. destruct (D4 Hl) as [R B]. split; [revert R; apply srel_ext; assumption|exact B]. }
+      destruct O4 as (A & B & C).
+      split; [rewrite E6; exact A|]. split; [rewrite E6; intros Hd; congruence|]. intros _.
       destruct (C Es) as [Hr [applied [[C1 C2 C3 C4 C5 C6 C7 C8] L]]]. split; [exact Hr|]. exists applied. rewrite Hupd.
-      assert (Hsub : forall m, In m (lm ++ cl_inbox_mut cl' ++ cl_buffered cl') ->
-                In m (l_mut (get_link y slot0) ++ cl_inbox_mut cl ++ cl_buffered cl)).
-      { intros m Hm. rewrite E7 in Hm. rewrite app_assoc in Hm. apply in_app_or in Hm. rewrite app_assoc. apply in_or_app.
-        destruct Hm as [Hm|Hm]; [left; exact (Hmut m Hm)|right; exact Hm]. }
       split.
       + constructor; try assumption.
         * revert C1. apply srel_ext; assumption.
@@ -1157,7 +1181,7 @@ Section SESS.
     transport_step st = true -> legal_step st = true ->
     f_inv script y gs -> sys_step y st = Ok (y', o) -> f_inv (script ++ [st]) y' gs.
   Proof.
-    intros Ht Hl Hinv H. pose proof Hinv as [Hcfg Hg Hnm Htk Hst Hslots].
+    intros Ht Hl Hinv H. pose proof Hinv as [Hcfg Hg Hnm Htk Hslots].
     assert (Hnt : is_tick_frame st = false) by (destruct st; try discriminate; reflexivity).
     assert (Hmode : forall slot m, mode_step slot m st = m) by (intros slot m; destruct st; try discriminate; reflexivity).
     assert (Hends : forall slot, ends_session slot st = false) by (intros slot; destruct st; try discriminate; reflexivity).
@@ -1240,7 +1264,7 @@ Section SESS.
   Proof.
     intros Hinv Hrun H1 H3 Hs Hb H.
     destruct st as [| |slot max|slot|slot|tick dt cleanup ops parts|slot ops|slot s2c ch w|slot s2c ch w].
-    - cbn [sys_step] in H. inversion H; subst y' o. exact (f_start script y gs Hinv Hs).
+    - cbn [sys_step] in H. inversion H; subst y' o. exact (f_start script y gs Hinv).
     - exact (f_stop script y gs y' o Hinv H).
     - exact (f_connect script y gs slot max y' o Hinv Hs H).
     - cbn [sys_step] in H. inversion H; subst y' o. exact (f_authorize script y gs slot Hinv).
@@ -1294,7 +1318,7 @@ Section SESS.
            struct_equiv (fold_left abs_apply p []) (struct_vis (y_server y1) cl1) /\
            u_tick (last p dflt_upd) = sv_tick (y_server y1)).
   Proof.
-    intros Hok Hb H Hc Hm Hs. pose proof (f_run script y gs Hok Hb H) as [_ Hg _ _ _ Hslots]. split; [exact Hg|].
+    intros Hok Hb H Hc Hm Hs. pose proof (f_run script y gs Hok Hb H) as [_ Hg _ _ Hslots]. split; [exact Hg|].
     destruct (Hslots slot c Hc) as [O1 _ _ O4]. rewrite Hm in O4. cbn [mode_inv] in O4. destruct O4 as (_ & _ & C).
     destruct (C Hs) as [_ [applied [[C1 _ C3 _ C5 _ _ _] [L1 L2 _ _ _ _]]]].
     exists applied. split; [apply srel_struct_equiv; [exact (cs_inv_nodup c O1)|exact C1]|]. split; [exact L1|].
@@ -1338,7 +1362,7 @@ Section SESS.
       struct_equiv (client_struct c) (struct_vis (y_server y1) cl1) /\ cl_upd_tick c = sv_tick (y_server y1).
   Proof.
     intros Hok Hb H Hc Hm. destruct (run_erun_s script (sys_init cfg0 nclients) [] y H) as [gs He].
-    pose proof (f_run script y gs Hok Hb He) as [_ _ _ _ _ Hslots].
+    pose proof (f_run script y gs Hok Hb He) as [_ _ _ _ Hslots].
     destruct (Hslots slot c Hc) as [O1 _ _ O4]. pose proof (cs_inv_nodup c O1) as Hnd.
     destruct Hm as [Hm|Hm]; rewrite Hm in O4; cbn [mode_inv] in O4.
     - left. destruct O4 as (_ & (R & _) & _). apply srel_struct_equiv; [exact Hnd|exact R].
@@ -1361,7 +1385,7 @@ Section SESS.
     al_get slot (y_clients y) = Some c -> mode_of script slot = MLive -> cl_status c = Connected ->
     forall u, In u (cl_inbox_upd c ++ l_upd (get_link y slot)) -> struct_equiv (client_struct c) [] \/ cl_upd_tick c < u_tick u.
   Proof.
-    intros Hok Hb H Hc Hm Hs u Hu. pose proof (f_run script y gs Hok Hb H) as [_ _ _ _ _ Hslots].
+    intros Hok Hb H Hc Hm Hs u Hu. pose proof (f_run script y gs Hok Hb H) as [_ _ _ _ Hslots].
     destruct (Hslots slot c Hc) as [O1 _ _ O4]. rewrite Hm in O4. cbn [mode_inv] in O4. destruct O4 as (_ & _ & C).
     destruct (C Hs) as [_ [applied [[C1 _ C3 _ C5 _ _ _] _]]]. destruct applied as [|u0 t0] eqn:Ea.
     - left. apply srel_struct_equiv; [exact (cs_inv_nodup c O1)|exact C1].
@@ -1392,7 +1416,7 @@ Section SESS.
     sys_step y (StCFrame slot ops) = Ok (y', o) -> al_get slot (y_clients y') = Some c' ->
     struct_equiv (client_struct c) [] \/ cl_upd_tick c <= cl_upd_tick c'.
   Proof.
-    intros Hok Hb H Hc Hm Hs Hstep Hc'. pose proof (f_run script y gs Hok Hb H) as [_ _ _ _ _ Hslots].
+    intros Hok Hb H Hc Hm Hs Hstep Hc'. pose proof (f_run script y gs Hok Hb H) as [_ _ _ _ Hslots].
     destruct (Hslots slot c Hc) as [O1 O2 O3 O4]. rewrite Hm in O4. cbn [mode_inv] in O4. destruct O4 as (_ & _ & C).
     destruct (C Hs) as [_ [applied [C1 _]]].
     destruct (client_frame c ops) as [[cl' cfo]| |] eqn:Ef;
@@ -1417,7 +1441,7 @@ Section SESS.
     l_upd (get_link y slot) = [] /\ l_mut (get_link y slot) = [].
   Proof.
     intros Hok Hb H Hc Hm. destruct (run_erun_s script (sys_init cfg0 nclients) [] y H) as [gs He].
-    pose proof (f_run script y gs Hok Hb He) as [_ _ _ _ _ Hslots].
+    pose proof (f_run script y gs Hok Hb He) as [_ _ _ _ Hslots].
     destruct (Hslots slot c Hc) as [O1 _ _ O4]. rewrite Hm in O4. cbn [mode_inv] in O4.
     destruct O4 as (A & (R & B & I & M) & C & D & E). split; [exact A|].
     split; [apply srel_struct_equiv; [exact (cs_inv_nodup c O1)|exact R]|]. split; [exact B|]. split; [exact I|]. split; [exact M|].
@@ -1435,24 +1459,27 @@ Section SESS.
     find_client (y_server y) slot = None /\ l_upd (get_link y slot) = [] /\ l_mut (get_link y slot) = [].
   Proof.
     intros Hok Hb H Hc Hm. destruct (run_erun_s script (sys_init cfg0 nclients) [] y H) as [gs He].
-    pose proof (f_run script y gs Hok Hb He) as [_ _ _ _ _ Hslots].
+    pose proof (f_run script y gs Hok Hb He) as [_ _ _ _ Hslots].
     destruct (Hslots slot c Hc) as [O1 _ _ O4]. rewrite Hm in O4. cbn [mode_inv] in O4.
     destruct O4 as (A & (I & M & _) & C & D & E). split; [exact A|]. split; [exact O1|]. split; [exact I|]. split; [exact M|].
     split; [|auto]. destruct (find_client (y_server y) slot) eqn:Ef; [|reflexivity]. exfalso. apply C. apply has_rec_find. congruence.
   Qed.
 
-  (* a slot that was live when the server stopped and has not been disconnected yet: the server is stopped,
-     nothing is queued for the slot *)
+  (* a slot that was live when the server stopped and has not been disconnected yet: the client invariant is
+     kept, so that `StDisconnect slot; StCFrame slot _` brings the slot back to MClean; a client that is not
+     connected is clean *)
   Theorem f_stale script y slot c :
     script_okf script = true -> tick_frames script < 2 ^ 31 ->
     run (sys_init cfg0 nclients) script = Ok y -> al_get slot (y_clients y) = Some c ->
     mode_of script slot = MStale ->
-    sv_running (y_server y) = false /\ cs_inv c /\ l_upd (get_link y slot) = [] /\ l_mut (get_link y slot) = [].
+    cs_inv c /\ (cl_status c = Disconnected -> struct_equiv (client_struct c) [] /\ find_client (y_server y) slot = None).
   Proof.
     intros Hok Hb H Hc Hm. destruct (run_erun_s script (sys_init cfg0 nclients) [] y H) as [gs He].
-    pose proof (f_run script y gs Hok Hb He) as [_ _ _ _ Hst Hslots].
+    pose proof (f_run script y gs Hok Hb He) as [_ _ _ _ Hslots].
     destruct (Hslots slot c Hc) as [O1 _ _ O4]. rewrite Hm in O4. cbn [mode_inv] in O4.
-    destruct O4 as (A & B & _). split; [exact (Hst slot Hm)|]. auto.
+    destruct O4 as (C & _). split; [exact O1|]. intros Hd. destruct (C Hd) as ((R & _) & C2 & _).
+    split; [apply srel_struct_equiv; [exact (cs_inv_nodup c O1)|exact R]|].
+    destruct (find_client (y_server y) slot) eqn:Ef; [|reflexivity]. exfalso. apply C2. apply has_rec_find. congruence.
   Qed.
 
   (* the invariant of the ghost run of C03V along the whole run *)
@@ -1497,7 +1524,7 @@ Section SESS.
     rewrite <- (erun_s_erun script _ _ (okm_single script Hok)) in H.
     assert (Hm : mode_of script slot = MLive).
     { destruct (Hmodes slot) as [Hm|Hm]; [|exact Hm]. exfalso.
-      pose proof (f_run script y gs Hf Hb H) as [_ _ _ _ _ Hslots]. destruct (Hslots slot c Hc) as [_ _ _ O4].
+      pose proof (f_run script y gs Hf Hb H) as [_ _ _ _ Hslots]. destruct (Hslots slot c Hc) as [_ _ _ O4].
       rewrite Hm in O4. cbn [mode_inv] in O4. destruct O4 as (A & _). congruence. }
     destruct (f_fifo script y gs slot c Hf Hb H Hc Hm Hs) as (Hg & applied & A1 & A2 & A3 & A4 & A5).
     split; [exact Hg|]. exists applied. split; [exact A1|]. split; [exact A2|]. split; [exact A3|]. split; [exact A4|].
